@@ -305,3 +305,106 @@ func init() {
 			"doLazyUpdate: `err := next.ExecNext(ctx, qCtx)` on the copy, then `r := qCtx.R()` and `if r != nil { saveRespToCache(msgKey, r, ...) }`; no SetResponse in the refresh itself")
 	})
 }
+
+// Ownership of the record objects: what the store keeps and what a hit hands out are copies, record by record.
+func init() {
+	factFuncs = append(factFuncs, func(ex *factExtractor) {
+		const urel = "plugin/executable/cache/utils.go"
+		cp := ex.fn(urel, "", "copyNoOpt")
+		save := ex.fn(urel, "", "saveRespToCache")
+		getf := ex.fn(urel, "", "getRespFromCache")
+		isSec := func(e ast.Expr, base string) bool {
+			s, ok := e.(*ast.SelectorExpr)
+			if !ok {
+				return false
+			}
+			id, ok := s.X.(*ast.Ident)
+			return ok && id.Name == base && (s.Sel.Name == "Answer" || s.Sel.Name == "Ns" || s.Sel.Name == "Extra")
+		}
+		// (1) copyNoOpt: the only things put into m2's sections are `dns.Copy(r)` of the range variable of a loop over
+		// the corresponding section of m; m's sections are otherwise only measured (len) and ranged over; the stored
+		// item's message is copyNoOpt(r).
+		okCopy := false
+		if cp != nil && save != nil {
+			nAppend, nGood := 0, 0
+			nSecUse, nSecOk := 0, 0
+			okAssign := true
+			ast.Inspect(cp.Body, func(n ast.Node) bool {
+				switch y := n.(type) {
+				case *ast.CallExpr:
+					if id, ok := y.Fun.(*ast.Ident); ok {
+						switch id.Name {
+						case "append":
+							nAppend++
+							if len(y.Args) == 2 && y.Ellipsis == token.NoPos && isSec(y.Args[0], "m2") && ex.str(y.Args[1]) == "dns.Copy(r)" {
+								nGood++
+							}
+						case "len":
+							if len(y.Args) == 1 && isSec(y.Args[0], "m") {
+								nSecOk++
+							}
+						case "copy":
+							if len(y.Args) != 2 || ex.str(y.Args[0]) != "m2.Question" {
+								okAssign = false
+							}
+						}
+					}
+				case *ast.RangeStmt:
+					if isSec(y.X, "m") {
+						nSecOk++
+						if y.Value == nil || ex.str(y.Value) != "r" || y.Tok != token.DEFINE {
+							okAssign = false
+						}
+					}
+				case *ast.SelectorExpr:
+					if isSec(y, "m") {
+						nSecUse++
+					}
+				case *ast.AssignStmt:
+					// a section of m2 is assigned either an append to itself or a fresh (empty) slice of the new backing array s
+					for i, l := range y.Lhs {
+						if !isSec(l, "m2") {
+							continue
+						}
+						var rhs string
+						if len(y.Rhs) == len(y.Lhs) {
+							rhs = ex.str(y.Rhs[i])
+						}
+						if !strings.HasPrefix(rhs, "append("+ex.str(l)+", ") && !strings.HasPrefix(rhs, "s[:0:") {
+							okAssign = false
+						}
+					}
+				}
+				return true
+			})
+			ss := stmtStrings(ex, cp.Body)
+			okCopy = nAppend == 3 && nGood == 3 && nSecUse == nSecOk && okAssign &&
+				contains(ss, "m2.Answer = append(m2.Answer, dns.Copy(r))") && contains(ss, "m2.Ns = append(m2.Ns, dns.Copy(r))") && contains(ss, "m2.Extra = append(m2.Extra, dns.Copy(r))") &&
+				contains(ss, "s := make([]dns.RR, len(m.Answer)+len(m.Ns)+lenExtra)") && contains(ss, "return m2") &&
+				strings.Contains(ex.str(save.Body), "resp: copyNoOpt(r)")
+		}
+		ex.setBool("c05StoredRecordsAreCopies", okCopy, cp != nil && save != nil,
+			"copyNoOpt: m2's sections live in a new backing array and receive only `dns.Copy(r)` of the records of m's sections (3 appends, no other use of m.Answer/m.Ns/m.Extra than len and range); saveRespToCache stores `resp: copyNoOpt(r)`")
+		// (2) getRespFromCache: both hits work on `r := v.resp.Copy()`; v.resp is not used otherwise
+		okHit := false
+		if getf != nil {
+			nResp, nCopyStmt := 0, 0
+			ast.Inspect(getf.Body, func(n ast.Node) bool {
+				switch y := n.(type) {
+				case *ast.SelectorExpr:
+					if ex.str(y) == "v.resp" {
+						nResp++
+					}
+				case *ast.AssignStmt:
+					if ex.str(y) == "r := v.resp.Copy()" {
+						nCopyStmt++
+					}
+				}
+				return true
+			})
+			okHit = nResp == 2 && nCopyStmt == 2
+		}
+		ex.setBool("c05HitHandsOutCopy", okHit, getf != nil,
+			"getRespFromCache: `r := v.resp.Copy()` on the fresh and on the lazy path, and no other use of v.resp: TTL arithmetic is done on, and the caller gets, a deep copy")
+	})
+}
